@@ -84,6 +84,7 @@ type FuncContract struct {
 	Operands []string
 	Defines  []Expr // leaves always defined by the function
 	NoBody   bool
+	LocalAssume map[string]*Clause // assumptions on float-derived locals (listed in evidence)
 	Allocates bool
 	Exported  bool
 	Line     int
@@ -430,7 +431,7 @@ var clauseKW = map[string]bool{
 	"func": true, "requires": true, "ensures": true, "assigns": true, "nilable": true, "fresh": true,
 	"trusted": true, "layer": true, "loop": true, "props": true, "define": true, "lemma": true,
 	"global": true, "outs": true, "operands": true, "defines": true, "hint": true, "pure": true,
-	"allocates": true, "exported": true, "axiom": true,
+	"allocates": true, "exported": true, "axiom": true, "local": true,
 }
 
 var tagRe = regexp.MustCompile(`^\{([A-Za-z0-9_,\- ]*)\}\s*`)
@@ -574,6 +575,20 @@ func ParseSpecFile(path string) (*Spec, error) {
 				cur.Outs = strings.FieldsFunc(rest, func(r rune) bool { return r == ',' || r == ' ' })
 			case "operands":
 				cur.Operands = strings.FieldsFunc(rest, func(r rune) bool { return r == ',' || r == ' ' })
+			case "local":
+				// local NAME assume EXPR because WHY
+				f := strings.SplitN(rest, " ", 3)
+				if len(f) < 3 || f[1] != "assume" {
+					panic(fmt.Sprintf("line %d: bad local clause", l.no))
+				}
+				ex, why := f[2], ""
+				if i := strings.Index(ex, " because "); i >= 0 {
+					ex, why = ex[:i], ex[i+9:]
+				}
+				if cur.LocalAssume == nil {
+					cur.LocalAssume = map[string]*Clause{}
+				}
+				cur.LocalAssume[f[0]] = &Clause{Kind: "local-assume", E: mustExpr(ex, l.no), Src: ex, Name: why}
 			case "fresh":
 				cur.Fresh = true
 			case "allocates":
